@@ -389,10 +389,29 @@ int FUNC(verify)(jwt_common_t *__cmd, const char *token)
 	config.alg = __cmd->c.alg;
 	config.ctx = __cmd->c.cb_ctx;
 
-	/* Let the user handle this and update config */
-        if (__cmd->c.cb && __cmd->c.cb(jwt, &config)) {
-		jwt_write_error(__cmd, "User callback returned error");
-		return 1;
+	/* Let the user handle this and update config. Whatever the callback
+	 * does to the claims of the jwt_t must not change the rest of the
+	 * process, so the claims that get checked are the parsed ones. */
+	if (__cmd->c.cb) {
+		json_t *claims = json_deep_copy(jwt->claims);
+		int cb_ret;
+
+		if (claims == NULL) {
+			// LCOV_EXCL_START
+			jwt_write_error(__cmd, "Could not allocate JWT object");
+			return 1;
+			// LCOV_EXCL_STOP
+		}
+
+		cb_ret = __cmd->c.cb(jwt, &config);
+
+		json_decref(jwt->claims);
+		jwt->claims = claims;
+
+		if (cb_ret) {
+			jwt_write_error(__cmd, "User callback returned error");
+			return 1;
+		}
 	}
 
 	/* Callback may have changed this */
